@@ -27,6 +27,7 @@ VarDef(n, t) == [n |-> n, t |-> t, hasDef |-> FALSE, def |-> NullV]
 VarDefD(n, t, d) == [n |-> n, t |-> t, hasDef |-> TRUE, def |-> d]
 Doc1(sels) == [ops |-> <<Op("", "query", <<>>, sels)>>, frags |-> <<>>]
 DocF(sels, frags) == [ops |-> <<Op("", "query", <<>>, sels)>>, frags |-> frags]
+Doc1V(vds, sels) == [ops |-> <<Op("Q", "query", vds, sels)>>, frags |-> <<>>]
 NoVars == [x \in {} |-> NullV]
 Case(fam, doc, op, vars, faults) == [fam |-> fam, doc |-> doc, op |-> op, vars |-> vars, faults |-> faults]
 Plain(fam, sels) == Case(fam, Doc1(sels), "", NoVars, {})
@@ -184,6 +185,14 @@ FamDefects ==
       <<FS("", "a", <<FA("", "tag", <<BogusArg>>), F("", "n")>>)>>,
       <<FS("", "one", <<FA("", "name", <<BogusArg>>)>>), F("", "title")>>,
       <<FS("", "items", <<FA("", "tag", <<Arg("s", StrV("v")), BogusArg>>)>>)>> } }
+  \* ... whatever is written for it: null, a variable (set, unset), a list, an input object, an enum symbol
+  \cup { Case("defect", Doc1V(<<VarDef("sv", S)>>, s), "", g, {}) :
+           s \in UNION { { <<FA("", "title", <<Arg("bogus", v)>>), F("x", "title")>>,
+                           <<FA("", "echo", <<Arg("s", StrV("v")), Arg("bogus", v)>>), F("", "title")>>,
+                           <<FS("", "one", <<FA("", "name", <<Arg("bogus", v)>>)>>), F("", "title")>>,
+                           <<FS("", "a", <<FA("", "tag", <<Arg("bogus", v), Arg("s", StrV("v"))>>), F("", "n")>>)>> }
+                         : v \in {NullV, Var("sv"), ListV(<<>>), ListV(<<IntV(1)>>), V("obj", [a |-> StrV("x")]), V("enum", "RED"), BoolV(FALSE), StrV("")} },
+           g \in {NoVars, [sv |-> StrV("one")]} }
   \* required argument omitted or null
   \cup { Plain("defect", s) : s \in {
       <<F("", "need"), F("", "title")>>,
@@ -210,6 +219,9 @@ FaultDocs ==
   \cup { DocF(<<FS("", top, <<Spr("F"), F("q", "n")>>)>>, <<Frg("F", "A", <<F("", "name"), FS("", "kids", <<Spr("G")>>)>>), Frg("G", "A", <<F("", "n")>>)>>) : top \in {"a", "items"} }
   \cup { Doc1(<<F("", "grid"), F("", "bad"), FS("", "a", <<F("", "boom"), F("", "name")>>)>>) }
   \cup { Doc1(<<FS("", top, <<F("", "name"), F("h", "half")>>), F("", "title")>>) : top \in {"a", "items"} }
+  \* output coercion failures (a leaf and list elements) and a group of groups of errors
+  \cup { Doc1(<<FS("", top, <<F("", "name"), F("w", "wrong"), F("", "flags")>>), F("", "title")>>) : top \in {"a", "items", "matrix"} }
+  \cup { Doc1(<<FS("", top, <<F("g", "nest"), F("", "n")>>), F("", "title")>>) : top \in {"a", "items"} }
   \cup { Doc1(<<FS("", "a", <<FS("", "peer", <<FS("", "peer", <<F("", "boom"), FS("s", "self", <<F("", "name")>>)>>)>>)>>)>>) }
 CallSites(doc) == LET r == Response(UExec, doc, "", NoVars, {}) IN { <<r.calls[i].node, r.calls[i].field>> : i \in DOMAIN r.calls }
 FamFaults1 == { Case("fault1", d, "", NoVars, {site}) : <<d, site>> \in UNION { {d} \X CallSites(d) : d \in FaultDocs } }
